@@ -358,7 +358,12 @@ def r20_3(ctx: Ctx, R: Resolver):
         if isinstance(st, ast.Assign) and isinstance(st.targets[0], ast.Subscript) and isinstance(st.targets[0].slice, ast.Constant) \
                 and st.targets[0].slice.value in ("top_AA", "coor_AA"):
             key_ = st.targets[0].slice.value
-            g_ = cguards_of(st, pms)
+            from ..pat import expand_single_defs as _xsd20
+            from ..cfg import canon_test as _ct20
+            # guards with locals that are bound once written out (an alias of the species' record reads as the record)
+            g_ = sorted(_ct20(_xsd20(sm.node, t_, aliases_only=True), p_) for t_, p_ in guards_of(st, pms))
+            if isinstance(st.targets[0].value, ast.Name):
+                st = ast.copy_location(ast.Assign([_xsd20(sm.node, st.targets[0], aliases_only=True)], st.value), st)
             if key_ == "top_AA":
                 # names are read off the code (renaming locals must not matter)
                 rets_ = [r_ for r_ in walk_no_nested(sm.node) if isinstance(r_, ast.Return) and isinstance(r_.value, ast.Name)]
@@ -669,7 +674,8 @@ def r20_4(ctx: Ctx, R: Resolver):
             okr &= isinstance(c.args[1], ast.Subscript) and isinstance(c.args[1].slice, ast.Constant) and c.args[1].slice.value == "top_AA"
     okr &= "top_CG" in facts and "coor_AA_tested_with" in facts
     nested_trial = any(call_name(c) == "from_files" for n_ in ast.walk(sm.node) if isinstance(n_, ast.FunctionDef) and n_ is not sm.node
-                       for c in ast.walk(n_) if isinstance(c, ast.Call))
+                       for c in ast.walk(n_) if isinstance(c, ast.Call)) or \
+        any(call_name(c) == "from_files" for h_ in ctx.with_helpers(sm)[1:] for c in ast.walk(h_.node) if isinstance(c, ast.Call))
     if not okr and nested_trial:
         ctx.ob("R20.4", sm, "record roles", True, "the trial load is done by a local helper; which files it is given is not decided on this tree",
                undecided=True, node=sm.node)
